@@ -473,6 +473,20 @@ class Translator:
         return "\n".join(out) + "\n"
 
 
+def static_local(n):
+    """name of a local variable with static or thread storage duration inside the subtree, if any: such a variable is state shared
+    between calls (and threads) that none of the translation modes models — the function is outside every subset"""
+    if not isinstance(n, dict):
+        return None
+    if n.get("kind") == "VarDecl" and (n.get("storageClass") == "static" or n.get("tls")):
+        return n.get("name") or "?"
+    for c in n.get("inner", []):
+        r = static_local(c)
+        if r:
+            return r
+    return None
+
+
 class FnTr:
     """translation of one function body"""
 
@@ -480,6 +494,11 @@ class FnTr:
         self.T = T
         self.tu = T.tu
         self.node = node
+        if isinstance(node, dict) and node.get("kind") in ("FunctionDecl", "CXXMethodDecl", "CXXConstructorDecl"):
+            body = TU.body_of(node)
+            sl = static_local(body) if body is not None else None
+            if sl:
+                raise Untranslatable("static local variable `%s` (state shared between calls)" % sl)
         self.fn = Fn()
         self.ext = {}       # decl id of an external buffer parameter -> lean name (Bytes)
         if preset:
